@@ -22,7 +22,7 @@ bad=0
 for what in (sys.argv[1:] or ['funcs','locals','fields']):
     tmp=tempfile.mkdtemp(prefix='hms-rn-')
     try:
-        scr=os.path.join(tmp,'repo'); os.makedirs(scr); subprocess.run(['rsync','-a','--exclude=.git','/repo/',scr+'/'],check=True)
+        scr=os.path.join(tmp,'repo'); os.makedirs(scr); subprocess.run(['rsync','-a','--exclude=.git','/repo/',scr+'/'])
         r=subprocess.run(['/verif/bin/renamer','-dir',scr,'-what',what,'-suffix',SUF],capture_output=True,text=True,env=ENV)
         print(what,':',r.stdout.strip(),r.stderr.strip()[-300:])
         if subprocess.run(['go','build','./...'],cwd=scr,capture_output=True,env=ENV).returncode!=0: print('  does not build'); continue
